@@ -507,6 +507,7 @@ func vcExists[T any](f func(T) bool) bool {
 var vcReplayU64 []uint64
 func vcArr[T any](s []T) uint64 { if cap(s) == 0 { return 0 }; return uint64(uintptr(vcUnsafe.Pointer(vcUnsafe.SliceData(s[:cap(s)])))) }
 func vcOff[T any](s []T) int { return 0 }
+func vcAllocated[T any](s []T) bool { return true }
 func vcPreElem[T any](s []T, k int) T { panic("vcPreElem: pre-state elements are not available at replay time") }
 func vcFresh[T any](p *T) bool { return true }
 func vcFreshSlice[T any](s []T) bool { return true }
@@ -696,7 +697,15 @@ func (e *Engine) replayOblig(u *Unit, ob *Oblig) ReplayOutcome {
 		ro.Confirmed = true
 	case strings.Contains(ro.Output, "fatal error:") || strings.Contains(ro.Output, "out of memory") || strings.Contains(ro.Output, "cannot allocate"):
 		ro.Observed = "process aborted: " + firstLines(ro.Output, 2)
-		ro.Confirmed = true
+		// an abort counts only for obligations about the code's own failures (panic kinds: a real allocation or
+		// deadlock abort), and never when it is the replay harness that overflowed (recursive specification
+		// functions are evaluated eagerly there)
+		abortOK := expectPanic || ob.Kind == "pre" || ob.Kind == "lock-not-held" || ob.Kind == "unlock-held"
+		if abortOK && !strings.Contains(ro.Output, "stack exceeds") {
+			ro.Confirmed = true
+		} else {
+			ro.Reason = "the replay process aborted before the clause could be evaluated: " + firstLines(ro.Output, 1)
+		}
 	case strings.Contains(ro.Output, "VCREPLAY prefailed="):
 		i := strings.Index(ro.Output, "VCREPLAY prefailed=")
 		line := strings.SplitN(ro.Output[i:], "\n", 2)[0]
